@@ -1030,10 +1030,90 @@ func c17redialCase(r *vh.Run, modes string, end byte) {
 
 // ------------------------------------------------------------------------------------------------
 
+// c17RealClock: the exported ClientMap with its real clock and periodic sweep.  A client seen just now
+// (even if its SendQueue call had to wait for the map lock) keeps its queue and contents until it has
+// been idle for the full timeout; an idle one is discarded and closed by the next sweep (within 1.5
+// timeouts, plus slack).  Several maps run in parallel with small timeouts.
+func c17RealClock(r *vh.Run) {
+	type res struct{ desc, bad string }
+	out := make(chan res, 8)
+	run := func(timeout time.Duration, contended bool) {
+		desc := fmt.Sprintf("ClientMap timeout %v contended=%v", timeout, contended)
+		m := NewClientMap(timeout)
+		addr := c17addr(7)
+		var q chan []byte
+		if contended {
+			// a SendQueue call that waits for the lock for longer than the timeout
+			m.lock.Lock()
+			got := make(chan chan []byte, 1)
+			go func() { got <- m.SendQueue(addr) }()
+			time.Sleep(timeout + timeout/10)
+			m.lock.Unlock()
+			q = <-got
+		} else {
+			q = m.SendQueue(addr)
+		}
+		seen := time.Now()
+		q <- []byte("kept")
+		// well inside the timeout: still there, same queue, contents kept
+		time.Sleep(timeout * 3 / 4)
+		m.lock.Lock()
+		_, present := m.inner.byAddr[addr]
+		m.lock.Unlock()
+		if !present {
+			out <- res{desc, fmt.Sprintf("record discarded after only %v idle", time.Since(seen))}
+			return
+		}
+		select {
+		case p, ok := <-q:
+			if !ok || string(p) != "kept" {
+				out <- res{desc, "queue closed or contents lost while the client was seen within the timeout"}
+				return
+			}
+		default:
+			out <- res{desc, "queued packet lost while the client was seen within the timeout"}
+			return
+		}
+		// idle from `seen` on (draining the queue above is not a SendQueue call): gone by 1.5 timeouts + slack
+		time.Sleep(time.Until(seen.Add(timeout*3/2 + timeout/2)))
+		m.lock.Lock()
+		_, present = m.inner.byAddr[addr]
+		m.lock.Unlock()
+		if present {
+			out <- res{desc, fmt.Sprintf("record still present %v after it was last seen", time.Since(seen))}
+			return
+		}
+		if _, ok := <-q; ok {
+			out <- res{desc, "queue of a discarded client not closed"}
+			return
+		}
+		out <- res{desc, ""}
+	}
+	n := 0
+	for _, to := range []time.Duration{400 * time.Millisecond, 700 * time.Millisecond} {
+		for _, c := range []bool{false, true} {
+			n++
+			go run(to, c)
+		}
+	}
+	for i := 0; i < n; i++ {
+		x := <-out
+		r.Case("clientmap-realclock", x.desc, true)
+		if x.bad != "" {
+			key := "clientmap-realclock-retention"
+			if strings.Contains(x.bad, "discarded after only") || strings.Contains(x.bad, "lost") || strings.Contains(x.bad, "closed or") {
+				key = "clientmap-discarded-before-full-timeout"
+			}
+			r.OracleFail(key, x.desc, x.bad, "a client's queue is kept while it is seen within the timeout, never discarded before a full timeout of idleness, and discarded and closed by the next sweep after that")
+		}
+	}
+}
+
 func TestVerifC17(t *testing.T) {
 	r := vh.Start("C17")
 	defer r.Finish()
 	rng := r.Rng
+	c17RealClock(r)
 	r.Note("error channel capacities read from the source by the model: %s", r.Model("c17 caps"))
 
 	for i := 0; i < r.N(400, 8000); i++ {
